@@ -34,8 +34,8 @@ const prelude = `(set-option :produce-models true)
 (assert (= nilSlice (mkSlice 0 #x0000000000000000 #x0000000000000000 #x0000000000000000)))
 (assert (= (ityp nilIface) 0))
 (assert (forall ((s Str)) (! (bvult (slen s) #x4000000000000000) :pattern ((slen s)))))
-(assert (forall ((a Str) (b Str)) (! (= (slen (sconcat a b)) (bvadd (slen a) (slen b))) :pattern ((sconcat a b)))))
-(assert (forall ((a Str) (b Str) (i (_ BitVec 64))) (! (=> (and (bvsle #x0000000000000000 i) (bvslt i (bvadd (slen a) (slen b)))) (= (sat (sconcat a b) i) (ite (bvslt i (slen a)) (sat a i) (sat b (bvsub i (slen a)))))) :pattern ((sat (sconcat a b) i)))))
+(assert (forall ((a Str) (b Str)) (! (=> (and (bvult (slen a) #x2000000000000000) (bvult (slen b) #x2000000000000000)) (= (slen (sconcat a b)) (bvadd (slen a) (slen b)))) :pattern ((sconcat a b)))))
+(assert (forall ((a Str) (b Str) (i (_ BitVec 64))) (! (=> (and (bvult (slen a) #x2000000000000000) (bvult (slen b) #x2000000000000000) (bvsle #x0000000000000000 i) (bvslt i (bvadd (slen a) (slen b)))) (= (sat (sconcat a b) i) (ite (bvslt i (slen a)) (sat a i) (sat b (bvsub i (slen a)))))) :pattern ((sat (sconcat a b) i)))))
 (assert (forall ((s Str) (lo (_ BitVec 64)) (hi (_ BitVec 64))) (! (=> (and (bvsle #x0000000000000000 lo) (bvsle lo hi) (bvsle hi (slen s))) (= (slen (ssub s lo hi)) (bvsub hi lo))) :pattern ((ssub s lo hi)))))
 (assert (forall ((s Str) (lo (_ BitVec 64)) (hi (_ BitVec 64)) (i (_ BitVec 64))) (! (=> (and (bvsle #x0000000000000000 lo) (bvsle lo hi) (bvsle hi (slen s)) (bvsle #x0000000000000000 i) (bvslt i (bvsub hi lo))) (= (sat (ssub s lo hi) i) (sat s (bvadd lo i)))) :pattern ((sat (ssub s lo hi) i)))))
 `
@@ -666,15 +666,26 @@ func (e *Enc) finalize() error {
 				if e.axDone[ax.Name] {
 					continue
 				}
+				// An axiom is added when the encoding uses one of the uninterpreted / opaque specification
+				// functions it mentions - except axioms marked `# narrow`, which need all of them (they
+				// belong to a small theory whose instances create new terms; leaving an axiom out is
+				// always sound).
 				mention := false
-				for name := range e.usedSpec {
-					sf := e.w.specs.Funcs[name]
+				narrow := strings.Contains(ax.Expr, "{") // axioms with explicit triggers are the narrow ones
+				for name, sf := range e.w.specs.Funcs {
 					if sf == nil || sf.Raw || (sf.Body != "" && !sf.Opaque) {
 						continue
 					}
 					if mentionsIdent(ax.Expr, name) {
-						mention = true
-						break
+						if e.usedSpec[name] {
+							mention = true
+							if !narrow {
+								break
+							}
+						} else if narrow {
+							mention = false
+							break
+						}
 					}
 				}
 				if !mention || e.noLemmas && ax.Lemma {
